@@ -113,6 +113,14 @@ def canon_err(e):
     return 'Other'
 
 
+def as_bool(v):
+    """predicates must answer with a Boolean (python or numpy), not merely something truthy / falsy"""
+    import numpy as np
+    if isinstance(v, (bool, np.bool_)):
+        return bool(v)
+    return f'not-a-bool:{type(v).__name__}:{v!r}'
+
+
 def impl_answer(g, query, argmap=None):
     """Evaluate one wire-format query on the implementation graph.  `argmap(json_arg)` gives the python argument."""
     import hpotk
@@ -127,11 +135,11 @@ def impl_answer(g, query, argmap=None):
                 f = getattr(g, 'get_' + query[1])
                 return {'ok': vals(f(A(query[2]), query[3]))}
             if k == 'leaf':
-                return {'ok': bool(g.is_leaf(A(query[1])))}
+                return {'ok': as_bool(g.is_leaf(A(query[1])))}
             if k == 'pred':
                 name = {'parentOf': 'is_parent_of', 'childOf': 'is_child_of', 'ancestorOf': 'is_ancestor_of',
                         'descendantOf': 'is_descendant_of'}[query[1]]
-                return {'ok': bool(getattr(g, name)(A(query[2]), A(query[3])))}
+                return {'ok': as_bool(getattr(g, name)(A(query[2]), A(query[3])))}
             if k == 'contains':
                 return {'ok': bool(A(query[1]) in g)}
             if k == 'root':
@@ -143,7 +151,7 @@ def impl_answer(g, query, argmap=None):
                 r = f(g, A(query[2]), query[3])
                 return {'ok': vals(r), 'type': type(r).__name__}
             if k == 'path':
-                return {'ok': bool(tr.exists_path(g, A(query[1]), A(query[2])))}
+                return {'ok': as_bool(tr.exists_path(g, A(query[1]), A(query[2])))}
             if k == 'augment1':
                 f = au.augment_with_ancestors if query[1] == 'ancestors' else au.augment_with_descendants
                 r = f(g, A(query[2]), query[3])
@@ -169,7 +177,7 @@ def impl_answer(g, query, argmap=None):
             if k == 'predidx':
                 name = {'parentOf': 'is_parent_of_idx', 'childOf': 'is_child_of_idx', 'ancestorOf': 'is_ancestor_of_idx',
                         'descendantOf': 'is_descendant_of_idx'}[query[1]]
-                return {'ok': bool(getattr(g, name)(query[2], query[3]))}
+                return {'ok': as_bool(getattr(g, name)(query[2], query[3]))}
     except Exception as e:  # noqa
         return {'err': canon_err(e), 'exc': type(e).__name__}
     raise ValueError(f'unknown query {query}')
